@@ -148,4 +148,13 @@ def runEvents : State → List Ev → State
   | s, e :: r => runEvents (runCmd e.c s e.conn e.ref e.inMulti e.cmd).st r
 
 
+/-- commands that work on the session, the database table or nothing at all (everything else goes
+    through `onDb` on the connection's database) -/
+def Cmd.isSession : Cmd → Bool
+  | .select _ | .flushdb | .flushall | .multi | .exec | .discard | .watch _ | .unwatch
+  | .ping _ | .echo _ | .quit | .hello _ | .clientId | .clientGetname | .clientSetname _
+  | .clientInfo | .clientList | .dbsize | .opaque _ => true
+  | _ => false
+
+
 end RedisEmu
